@@ -1,6 +1,7 @@
 import Ecal.Lemmas.EvalHeap
 import Ecal.Lemmas.EvalPaths
 import Ecal.Lemmas.EvalWF
+import Ecal.Lemmas.EvalPres
 import Ecal.Lemmas.EvalFrame
 import Ecal.Lemmas.EvalLists
 import Ecal.Lemmas.EvalNew
@@ -19,6 +20,7 @@ equations that tie the mutual evaluator to these functions.
 Proved: lookup_nearest, assign_nearest_or_local, let_local, inner_not_visible_outside, call_fresh_locals,
 closure_sees_definition_scope, call_does_not_write_enclosing_frames, args_missing_default_extra_ignored,
 prims_by_value_containers_by_ref, read_after_write (cell) and read_after_write_path (setValue / getValue), 
+call_preserves_wf (+ _noDefaults), call_frame_invisible_noDefaults, writes_preserve_wf, control_flow_preserves_invariants,
 new_has_all_template_props (transitive), own_property_wins, method_this, init_once_with_args,
 init_once_with_args_and_supers, init_reads_super, addSuperClasses_cycle.  Hypotheses are listed with each theorem.
 -/
@@ -336,6 +338,108 @@ example : exRun2.2.scope 1 = exSt.scope 1 ∧ exRun2.2.scope 0 = exSt.scope 0 :=
       (exParams_hev _) rfl,
    call_does_not_write_enclosing_frames (fun d => eval 50 1 d) exFr _ [.bool true] exSt exRun2.2 exRun2.1 0 (by decide) exParams_plain
       (exParams_hev _) rfl⟩
+
+/-- `buildFrame` — the whole frame construction INCLUDING the link to the declaration scope — keeps the scope table
+    well-formed, for every outcome (a default that raises an error leaves an unlinked, empty-handed root behind: still
+    well-formed) and makes the table strictly larger.  Hypotheses: the declaration scope exists, parameter names are
+    plain identifiers, the defaults of this parameter list preserve `FrameWF` (table well-formed, frame in bounds and
+    still a root); `call_preserves_wf_noDefaults`: none of the last kind when the list has no defaults. -/
+theorem call_preserves_wf (ev : Ecal.Parse.Node → M Val) (fr : FuncRec) (params : List (Option Ecal.Parse.Node)) (args : List Val)
+    (st st' : St) (r : Except Sig Nat) (h : ScopesWF st) (hds : fr.declScope < st.scopes.size) (hpl : PlainParams params)
+    (hev : DefaultPreserves ev params (FrameWF st.scopes.size))
+    (hr : runM (buildFrame ev fr params args) st = (r, st')) :
+    ScopesWF st' ∧ st.scopes.size < st'.scopes.size :=
+  buildFrame_wf ev fr params args st st' r h hds hpl hev hr
+
+theorem call_preserves_wf_noDefaults (ev : Ecal.Parse.Node → M Val) (fr : FuncRec) (params : List (Option Ecal.Parse.Node))
+    (args : List Val) (st st' : St) (r : Except Sig Nat) (h : ScopesWF st) (hds : fr.declScope < st.scopes.size)
+    (hpl : PlainParams params) (hnp : NoPreset params) (hr : runM (buildFrame ev fr params args) st = (r, st')) :
+    ScopesWF st' ∧ st.scopes.size < st'.scopes.size :=
+  buildFrame_wf_noDefaults ev fr params args st st' r h hds hpl hnp hr
+
+/-- Calls without defaults, NO hypothesis about the evaluator and no `t ∉ chain` assumption: on a well-formed table,
+    after the frame of `f(args…)` is built, the table is still well-formed, every existing scope is unchanged, and
+    the frame is on the parent chain of NO existing scope — so by `inner_not_visible_outside` nothing the call defines
+    in its frame (parameters, `this`, locals) is visible from the caller or from anywhere else outside, while the body
+    sees frame :: chain of the declaration scope (`closure_sees_definition_scope`). -/
+theorem call_frame_invisible_noDefaults (ev : Ecal.Parse.Node → M Val) (fr : FuncRec) (params : List (Option Ecal.Parse.Node))
+    (args : List Val) (st st' : St) (fvs : Nat) (h : ScopesWF st) (hds : fr.declScope < st.scopes.size)
+    (hpl : PlainParams params) (hnp : NoPreset params)
+    (hr : runM (buildFrame ev fr params args) st = (.ok fvs, st')) :
+    ScopesWF st' ∧ fvs = st.scopes.size ∧ (∀ t, t < st.scopes.size → st'.scope t = st.scope t) ∧
+    (∀ sc f, sc < st.scopes.size → fvs ∉ st'.chain f sc) ∧
+    (∀ sc w v y, sc < st.scopes.size → (st'.withVar fvs w y).nearest sc v = st'.nearest sc v) := by
+  obtain ⟨hfresh, _, _, hkeep⟩ := frame_contents ev fr params args st st' fvs hnp hpl hr
+  have hwf := (call_preserves_wf_noDefaults ev fr params args st st' (.ok fvs) h hds hpl hnp hr).1
+  have hnot : ∀ sc f, sc < st.scopes.size → fvs ∉ st'.chain f sc := by
+    intro sc f hsc
+    rw [hfresh]
+    exact frame_not_on_existing_chains st st' h f sc hsc hkeep
+  refine ⟨hwf, hfresh, hkeep, hnot, ?_⟩
+  intro sc w v y hsc
+  exact (inner_not_visible_outside st' fvs sc w v y (hnot sc 10000 hsc)).1
+
+/-- non-vacuity on the real evaluator: `f(true)` (exRun1) over the well-formed example table -/
+theorem exSt_wf : ScopesWF exSt := by
+  constructor
+  · intro i p hi hp
+    have : i = 0 ∨ i = 1 := by simp [exSt] at hi; omega
+    rcases this with e | e <;> subst e <;> simp [St.scope, exSt] at hp
+    subst hp; decide
+  · intro p c hp hc
+    have : p = 0 ∨ p = 1 := by simp [exSt] at hp; omega
+    rcases this with e | e <;> subst e <;> simp [St.scope, exSt] at hc
+    subst hc; exact ⟨by decide, rfl⟩
+
+example : ScopesWF exRun1.2 ∧ (2 : Nat) ∉ exRun1.2.chain 10000 1 := by
+  have hpl : PlainParams [some exParamA] := fun p nm hp hn => exParams_plain p nm (by simp at hp ⊢; exact Or.inl hp) hn
+  have hnp : NoPreset [some exParamA] := by intro p hp; simp at hp; subst hp; rfl
+  have := call_frame_invisible_noDefaults (fun d => eval 50 1 d) exFr [some exParamA] [.bool true] exSt exRun1.2 2 exSt_wf
+    (by decide) hpl hnp rfl
+  exact ⟨this.1, this.2.2.2.1 1 10000 (by decide)⟩
+
+/-- The control-flow skeleton of the evaluator preserves EVERY state invariant its parts preserve, for every outcome
+    (errors, break / continue / return signals, fuel): `if` chains, condition loops, iterator loops, the except
+    dispatch, `try` with otherwise and with finally, and the body of a call (`ifChain`, `guardLoop`, `iterLoop`,
+    `dispatchExcept`, `tryCore`, `tryFinally`, `callCore` — the combinators the mutual evaluator calls with closures
+    over itself).  With `I = ScopesWF` this reduces "the evaluator preserves `ScopesWF`" to its leaves (expressions,
+    assignments, declarations, calls), which is the part that stays open. -/
+theorem control_flow_preserves_invariants (I : St → Prop) :
+    (∀ l : List (M Val × M Val), (∀ gb ∈ l, Pres I gb.1 ∧ Pres I gb.2) → Pres I (ifChain l)) ∧
+    (∀ guard body : M Val, Pres I guard → Pres I body → ∀ f, Pres I (guardLoop guard body f)) ∧
+    (∀ (σ : Type) (next : σ → M (Val × σ)) (bnd : Val → M Unit) (body : M Val),
+      (∀ s, Pres I (next s)) → (∀ v, Pres I (bnd v)) → Pres I body → ∀ f s, Pres I (iterLoop next bnd body f s)) ∧
+    (∀ (hs : List Handler) (e : Sig), (∀ h ∈ hs, ∀ e, Pres I (h e)) → Pres I (dispatchExcept hs e)) ∧
+    (∀ (body : M Val) (hs : List Handler) (oth : Option (M Val)), Pres I body → (∀ h ∈ hs, ∀ e, Pres I (h e)) →
+      (∀ o, oth = some o → Pres I o) → Pres I (tryCore body hs oth)) ∧
+    (∀ (main : M Val) (fin : Option (M Val)), Pres I main → (∀ f, fin = some f → Pres I f) → Pres I (tryFinally main fin)) ∧
+    (∀ body : M Val, Pres I body → Pres I (callCore body)) :=
+  ⟨Pres.ifChain I, Pres.guardLoop I, fun σ next bnd body => Pres.iterLoop I next bnd body, Pres.dispatchExcept I,
+   Pres.tryCore I, Pres.tryFinally I, Pres.callCore I⟩
+
+/-- non-vacuity with `I = ScopesWF`: a `try` whose body declares a local (`setLocalValue`) and whose finally block
+    assigns (`setValue`) preserves well-formedness, by `writes_preserve_wf` at the leaves -/
+example (sc : Nat) (a b : List Nat) (x y : Val) :
+    Pres ScopesWF (tryFinally (tryCore (do setLocalValue sc a x; pure Val.null) [] none) (some (do setValue sc b y; pure Val.null))) := by
+  have hl : Pres ScopesWF (do setLocalValue sc a x; pure Val.null : M Val) :=
+    Pres.bind _ _ _ (fun s r s' h hr => (setLocalValue_wf sc a x s s' r h hr).1) (fun _ => Pres.pure _ _)
+  have hs : Pres ScopesWF (do setValue sc b y; pure Val.null : M Val) :=
+    Pres.bind _ _ _ (fun s r s' h hr => (setValue_wf sc b y s s' r h hr).1) (fun _ => Pres.pure _ _)
+  refine (control_flow_preserves_invariants ScopesWF).2.2.2.2.2.1 _ _ ?_ (fun f hf => by injection hf with hf; rw [← hf]; exact hs)
+  exact (control_flow_preserves_invariants ScopesWF).2.2.2.2.1 _ [] none hl (fun h hm => by cases hm) (fun o ho => by cases ho)
+
+/-- Variable writes keep the table well-formed for EVERY name and EVERY outcome: `setValue` (plain names write one
+    variable, dotted names only the heap) and `setLocalValue` (the `let` node); together with the initial table, new
+    roots, `newChild` (`block_scope_under_current`) and `buildFrame` (`call_preserves_wf`) these are all the functions
+    through which the evaluator model changes `St.scopes` — that the mutual evaluator as a whole preserves `ScopesWF`
+    is the induction over these facts and stays open. -/
+theorem writes_preserve_wf :
+    (∀ sc name x st st' r, ScopesWF st → runM (setValue sc name x) st = (r, st') →
+      ScopesWF st' ∧ st'.scopes.size = st.scopes.size) ∧
+    (∀ sc name x st st' r, ScopesWF st → runM (setLocalValue sc name x) st = (r, st') →
+      ScopesWF st' ∧ st'.scopes.size = st.scopes.size) :=
+  ⟨fun sc name x st st' r h hr => setValue_wf sc name x st st' r h hr,
+   fun sc name x st st' r h hr => setLocalValue_wf sc name x st st' r h hr⟩
 
 /-- non-vacuity: a method frame (`this` bound, no parameters) built over the example state -/
 example : ∃ fvs st', runM (buildFrame (fun _ => pure Val.null) ⟨"m", default, 1, some (.map 0), none⟩ [] []) exSt = (.ok fvs, st') :=
